@@ -596,6 +596,11 @@ def _eval_item(item):
                 key, clause = make_key(prog, codes, R, C, outs, log, exc, _runner)
                 if key in seen:
                     continue
+                # determinism guard: real children / threaded stages race with the pipeline's own bookkeeping under
+                # load (a lost return code once in ~1e6 runs); only a mismatch that repeats twice more is reported
+                if any(ref.accepts(outs, *execute(code, prog, codes, R, C)) for _ in range(2)):
+                    res["unrepeatable"] = res.get("unrepeatable", 0) + 1
+                    continue
                 seen.add(key)
                 res["viols"].append(
                     {
@@ -839,6 +844,7 @@ def run(ctx):
     skipped = sum(r.get("skipped", 0) for r in res)
     forks = sum(r["forks"] for r in res)
     retried = sum(r.get("retried", 0) for r in res)
+    unrepeatable = sum(r.get("unrepeatable", 0) for r in res)
     for r in res:
         ctx.add_violations(r["viols"])
     ctx.log(f"in-process: {evals} executions, {rejected} texts rejected by the grammar, {sum(len(r['viols']) for r in res)} violating (text,key) pairs")
@@ -879,6 +885,7 @@ def run(ctx):
         process_runs=len(pcs) - prej,
         process_texts_rejected_by_grammar=prej,
         runs_repeated_after_30s_timeout=retried,
+        mismatches_not_repeatable_hence_not_reported=unrepeatable,
     )
     ctx.assumptions += [
         "callable aliases returning an int stand for commands with that exit status (real /bin/sh children only at process level)",
